@@ -46,11 +46,14 @@ def histories(draw, tier, kind):
             ops.append(['reset'])
             nres += 1
         elif kind.startswith('dt'):
-            gap16 = draw(st.sampled_from([16, 16, 16, 16, 17, 20, 8, 160]))   # gap in 16ths of the period
+            gap16 = draw(st.sampled_from([16, 16, 16, 16, 17, 18, 19, 20, 24, 13, 8, 160]))   # gap in 16ths of the period
             ops.append(['update', gap16, {v: draw(F.values()) for v in vs}])
         else:
             ops.append(['update', {v: draw(grid_signal(0, max_samples=3)) for v in vs}])
     c['ops'] = ops
+    if kind.startswith('dt') and draw(st.booleans()):
+        # an explicitly configured tolerance (the period stays 1 s so that bounds written in samples stay valid)
+        c['sampling'] = [1, 's', draw(st.sampled_from([0.0, 0.05, 0.2, 0.25, 0.5, 1.0]))]
     return c
 
 
@@ -90,12 +93,17 @@ def check(case):
         return DISCARD('no-variable', labels)
     if kind == 'dt_on_past' and F.horizon(f) is None:
         return DISCARD('unbounded', labels)
+    def fresh():
+        spec = build_modular(case)
+        if case.get('sampling'):
+            spec.set_sampling_period(*case['sampling'])
+        return spec
     try:
-        real = Runner(case, build_modular(case))
-        shadow = Runner(case, build_modular(case))
+        real = Runner(case, fresh())
+        shadow = Runner(case, fresh())
     except Exception as e:  # noqa
         return DISCARD('build-raises(C14/C17):' + type(e).__name__, labels)
-    desc = describe(dict(case, trace=None)) + '\nhistory: %s' % case['ops']
+    desc = describe(dict(case, trace=None)) + '\nsampling configuration: %s\nhistory: %s' % (case.get('sampling'), case['ops'])
     t16 = 0
     updates_since_reset = 0
     updates_before_reset = 0
@@ -111,7 +119,7 @@ def check(case):
                 return FAIL('reset-raises:%s:%s%s' % (kind, o[1], ':first' if idx == 0 else ''),
                             desc + '\noperation %d: reset() raised %s: %s at %s' % (idx, o[1], o[3], o[4]), labels)
             try:
-                shadow = Runner(case, build_modular(case))
+                shadow = Runner(case, fresh())
             except Exception as e:  # noqa
                 return DISCARD('build-raises', labels)
             real.base = 0
